@@ -10,10 +10,23 @@
                         code 1 = proto.Unmarshal fails, 2 = FromProtoMessage fails
      fs   (7 numbers or empty)  FSTree.Head/GetStream and FSTree.ReadObjectParts on a real tree *)
 From Coq Require Import List NArith Arith Bool.
+From Coq Require String Ascii.
 Import ListNotations.
 From NV Require Import Gen.WireConsts FSTree.Wire Wire.Fast Wire.Ref.
 
 Local Open Scope N_scope.
+
+(* number lists are passed as decimal strings ("1,0,34"): elaborating a number literal costs
+   milliseconds, a string literal microseconds *)
+Fixpoint pn (s : String.string) (cur : N) (have : bool) : list N :=
+  match s with
+  | String.EmptyString => if have then [cur] else []
+  | String.String c r =>
+    let d := Ascii.N_of_ascii c in
+    if (48 <=? d) && (d <=? 57) then pn r (cur * 10 + (d - 48)) true
+    else if have then cur :: pn r 0 false else pn r 0 false
+  end.
+Definition nums (s : String.string) : list N := pn s 0 false.
 
 Definition case := (option (N * N * bytes) * option N * list N * list N * list (N * N * N * N) * list N)%type.
 
